@@ -2,7 +2,7 @@
    Directives: only those of ExtrOcamlBasic and ExtrOcamlString. *)
 From Coq Require Import Extraction ExtrOcamlBasic ExtrOcamlString.
 From Sylt Require Import Syntax.Resolved Resolve.PAst Resolve.Resolver Resolve.ResolveSpec Gen.GenResolve.
-From Sylt Require Import Dep.Deps Dep.Topo Dep.AnnOrder Resolve.Modules Resolve.Wf Resolve.NsShadow Resolve.TreeOk Resolve.Parens Resolve.ColumnsLua Resolve.Arrow Resolve.Respell.
+From Sylt Require Import Dep.Deps Dep.Topo Dep.AnnOrder Dep.AnnTypes Resolve.Modules Resolve.Wf Resolve.NsShadow Resolve.TreeOk Resolve.Parens Resolve.ColumnsLua Resolve.Arrow Resolve.Respell.
 Extraction Language OCaml.
 (* the resolver as pinned: the flags regenerated from name_resolution.rs on this run *)
 Definition resolve_pinned := Resolver.resolve gen_rflags.
@@ -17,5 +17,5 @@ Definition no_ns_shadow_pinned := NsShadow.no_ns_shadow (imports_fixpoint gen_rf
 Definition use_names_sep (ast : PAst.past) : bool := ColumnsLua.use_names_separatedb (Parens.strip_parens ast).
 Extraction "resolvemodel.ml" Resolved.mkResolved PAst.mkModule resolve_pinned resolve_fixed spec_pinned nsfirst_pinned
   Wf.wf_ast no_ns_shadow_pinned TreeOk.tree_ok use_names_sep Arrow.arrows_simple gen_rflags
-  Topo.init_order AnnOrder.ann_deps_ok GenResolve.gen_assign_target_deps Resolved.stmt_span
+  Topo.init_order AnnOrder.ann_deps_ok AnnTypes.ann_types_only GenResolve.gen_assign_target_deps Resolved.stmt_span
   Modules.tree Modules.use_path Modules.implicit_name Respell.respell_okb GenResolve.gen_std_libs GenResolve.gen_std_uses.
